@@ -971,3 +971,100 @@ func ruleCompactionScansEndOnlyAtEOF(c *eng.Ctx) {
 		c.Unresolved("the compactor's three scan loops")
 	}
 }
+
+// ruleLeadershipLossCancelsGroupSubscribers (R13.8): the one-member-per-group rule is enforced through the member table of the
+// partition object on the leader. A server that stops leading a partition but keeps running therefore has to end the group
+// subscriptions it serves — the new leader's table is empty and would accept a second member. Structural condition: on every
+// path through becomeFollower a function is called that, holding consumersMu, closes the subscription of every entry of
+// p.consumers.
+func ruleLeadershipLossCancelsGroupSubscribers(c *eng.Ctx) {
+	p := c.P
+	fn := c.Fn("server.(*partition).becomeFollower")
+	cons := p.Field("server", "partition", "consumers")
+	if fn == nil || cons == nil {
+		return
+	}
+	cancelsAll := func(g *ssa.Function) bool {
+		// ranges over p.consumers and closes a subscription in the loop, with consumersMu held
+		var rng *ssa.Range
+		eng.Instrs(g, func(in ssa.Instruction) {
+			if r, ok := in.(*ssa.Range); ok && eng.Load(cons, nil)(r.X) {
+				rng = r
+			}
+		})
+		if rng == nil {
+			return false
+		}
+		ok := false
+		la := eng.LocksOf(p, g, 0)
+		eng.Instrs(g, func(in ssa.Instruction) {
+			cc, isC := in.(*ssa.Call)
+			if !isC {
+				return
+			}
+			f := cc.Common().StaticCallee()
+			if f == nil || (ir.FuncKey(f) != "server.(*subscription).Close" && ir.FuncKey(f) != "server.(*subscription).CloseWithStatus") {
+				return
+			}
+			after, _ := eng.PrecededBy(g, in, func(x ssa.Instruction) bool { return x == ssa.Instruction(rng) })
+			if after && lockHeld(la.At(in), "consumersMu", 1) {
+				ok = true
+			}
+		})
+		return ok
+	}
+	reaches := map[*ssa.Function]bool{}
+	for _, g := range moduleReach(c, fn, 3) {
+		if g.Parent() == nil && cancelsAll(g) {
+			reaches[g] = true
+		}
+	}
+	// calls in becomeFollower that lead (synchronously, within two hops) to such a function
+	isCancel := func(x ssa.Instruction) bool {
+		cc, isC := x.(*ssa.Call)
+		if !isC {
+			return false
+		}
+		f := cc.Common().StaticCallee()
+		if f == nil {
+			return false
+		}
+		for _, g := range moduleReach(c, f, 2) {
+			if reaches[g] {
+				return true
+			}
+		}
+		return false
+	}
+	q := &eng.PathQuery{Fn: fn, FromEntry: true, Target: func(x ssa.Instruction) bool { _, isRet := x.(*ssa.Return); return isRet }, CutInstr: isCancel}
+	w := q.Find()
+	c.Check(len(reaches) > 0 && w == nil, "becoming a follower ends the group subscriptions served here", p.Pos(fn.Pos()), "every path through becomeFollower cancels every entry of p.consumers under consumersMu", "a server that loses the leadership of a partition but keeps running goes on serving its consumer-group subscriptions ("+w.String()+"): the new leader's member table is empty, a second member of the group is accepted there, and both receive every message")
+}
+
+// ruleRawPayloadWaivesExpectedOffset (R14.9, shared with C16): a payload that is not an envelope is stored verbatim. It
+// cannot carry an expected offset, so the message built for it has to waive the offset condition (Offset = -1, the value the
+// log reads as "no expectation"); the zero value would be read as "must land at offset 0" by a stream with optimistic
+// concurrency control, and every raw payload but the first would be dropped.
+func ruleRawPayloadWaivesExpectedOffset(c *eng.Ctx) {
+	p := c.P
+	fn := c.Fn("server.natsToProtoMessage")
+	if fn == nil {
+		return
+	}
+	env := eng.CmpEdges(fn, eng.Call(0, "server.getMessage"), eng.NilConst, eng.NE)
+	if len(env) == 0 {
+		c.Unresolved("the envelope / raw payload test in natsToProtoMessage")
+		return
+	}
+	waives := func(x ssa.Instruction) bool {
+		st, isSt := x.(*ssa.Store)
+		if !isSt {
+			return false
+		}
+		fa, isFA := st.Addr.(*ssa.FieldAddr)
+		return isFA && eng.FieldNameOf(fa) == "Offset" && eng.IntConst(-1)(st.Val)
+	}
+	q := &eng.PathQuery{Fn: fn, FromEntry: true, Target: func(x ssa.Instruction) bool { _, isRet := x.(*ssa.Return); return isRet }, CutInstr: waives, CutEdges: env}
+	w := q.Find()
+	c.Check(w == nil, "a raw payload waives the expected offset", p.Pos(fn.Pos()), "Offset = -1 on the path that wraps a non-envelope payload", "the message built for a non-envelope payload keeps Offset at its zero value ("+w.String()+"): on a stream with optimistic concurrency control that reads as `must land at offset 0`, so every raw payload after the first fails with ErrIncorrectOffset and is dropped without a nack — the payload is not stored verbatim")
+}
